@@ -248,4 +248,161 @@ theorem scatter_scatter_inv (d p q : List Nat) (n : Nat) (hd : d.length = n)
     have h2 : d.length ≤ a := by omega
     rw [List.getElem?_eq_none h1, List.getElem?_eq_none h2]
 
+/-! ### reshape -/
+/-- number of `-1` entries / product of the other entries (as the C++ casts them) -/
+def cntNeg (dst : List Int) : Nat := (dst.filter (fun d => d = -1)).length
+def prodNonNeg (dst : List Int) : Nat := prod ((dst.filter (fun d => d ≠ -1)).map Int.toNat)
+
+theorem cnrFold_eq (dst : List Int) (c m : Nat) :
+    dst.foldl (fun (acc : Nat × Nat) d => if d = -1 then (acc.1 + 1, acc.2) else (acc.1, acc.2 * d.toNat)) (c, m)
+      = (c + cntNeg dst, m * prodNonNeg dst) := by
+  induction dst generalizing c m with
+  | nil => simp [cntNeg, prodNonNeg, prod]
+  | cons d dst ih =>
+    simp only [List.foldl_cons]
+    by_cases hd : d = -1
+    · subst hd
+      simp only [if_true]
+      rw [ih]
+      simp [cntNeg, prodNonNeg]; omega
+    · simp only [hd, if_false]
+      rw [ih]
+      simp [cntNeg, prodNonNeg, hd, prod, Nat.mul_assoc]
+
+theorem countNegativeReshape_eq (dst : List Int) (h : dst ≠ []) :
+    countNegativeReshape dst = (cntNeg dst, prodNonNeg dst) := by
+  cases dst with
+  | nil => exact absurd rfl h
+  | cons d dst =>
+    simp only [countNegativeReshape]
+    rw [cnrFold_eq]; simp
+
+theorem prod_map_infer (dst : List Int) (q : Nat) :
+    prod (dst.map (fun d => if d = -1 then q else d.toNat)) = prodNonNeg dst * q ^ cntNeg dst := by
+  induction dst with
+  | nil => simp [prod, prodNonNeg, cntNeg]
+  | cons d dst ih =>
+    simp only [List.map_cons, prod, ih]
+    by_cases hd : d = -1
+    · subst hd
+      simp [cntNeg, prodNonNeg, Nat.pow_succ]
+      rw [Nat.mul_comm q, Nat.mul_assoc]
+    · simp [hd, cntNeg, prodNonNeg, prod, Nat.mul_assoc]
+
+theorem pos_of_prod_pos (s : List Nat) (h : 0 < prod s) : Pos s := by
+  induction s with
+  | nil => intro x hx; simp at hx
+  | cons a t ih =>
+    simp only [prod] at h
+    have ha : 0 < a := Nat.pos_of_mul_pos_right h
+    have ht : 0 < prod t := Nat.pos_of_mul_pos_left h
+    intro x hx
+    simp at hx
+    rcases hx with rfl | hx
+    · exact ha
+    · exact ih ht x hx
+
+/-- an accepted reshape keeps the element count (source extents positive) -/
+theorem shapeReshape_prod (src : Shape) (dst : List Int) (s : Shape) (hs : Pos src)
+    (h : shapeReshape src dst = some s) : prod s = prod src := by
+  have hpos := prod_pos hs
+  by_cases hne : dst = []
+  · subst hne
+    simp [shapeReshape, countNegativeReshape] at h
+    omega
+  · simp only [shapeReshape, countNegativeReshape_eq dst hne] at h
+    split at h
+    · simp at h
+    · split at h
+      · simp at h
+      · split at h
+        · simp at h
+        · simp only [Option.some.injEq] at h
+          subst h
+          rw [prod_map_infer]
+          rename_i h1 h2 h3
+          have hc : cntNeg dst = 0 ∨ cntNeg dst = 1 := by omega
+          rcases hc with hc | hc
+          · simp only [hc, Nat.pow_zero, Nat.mul_one]
+            simp only [hc, true_and] at h2
+            omega
+          · simp only [hc, Nat.pow_one]
+            have : prod src % prodNonNeg dst = 0 := by omega
+            exact Nat.mul_div_cancel' (Nat.dvd_of_mod_eq_zero this)
+
+theorem cntNeg_ofNat (t : List Nat) : cntNeg (t.map Int.ofNat) = 0 := by
+  induction t with
+  | nil => rfl
+  | cons a t ih =>
+    have : ¬ ((a : Int) = -1) := by omega
+    simp [cntNeg] at ih ⊢
+
+theorem prodNonNeg_ofNat (t : List Nat) : prodNonNeg (t.map Int.ofNat) = prod t := by
+  induction t with
+  | nil => rfl
+  | cons a t ih =>
+    have h : ¬ ((a : Int) = -1) := by omega
+    simp only [prodNonNeg, List.map_cons] at ih ⊢
+    rw [List.filter_cons_of_pos (by simp [h])]
+    simp only [List.map_cons, prod, ih]
+    simp
+
+theorem cntNeg_append (a b : List Int) : cntNeg (a ++ b) = cntNeg a + cntNeg b := by
+  simp [cntNeg]
+theorem prodNonNeg_append (a b : List Int) : prodNonNeg (a ++ b) = prodNonNeg a * prodNonNeg b := by
+  simp [prodNonNeg, prod_append]
+
+/-- reading through a view whose index map is "same flat position" gives the same flattening -/
+theorem reshape_map_flat {α : Type} (a : Arr α) (s : Shape) (hs : Pos s) (ha : Pos a.shape)
+    (hp : prod s = prod a.shape) :
+    (allIdx s).map (fun d => a.get (computeIndices (computeOffset d (strides s)) a.shape (strides a.shape)))
+      = a.flat := by
+  rw [← map_ndindex_range s hs, List.map_map]
+  unfold Arr.flat
+  rw [← map_ndindex_range a.shape ha, List.map_map, hp]
+  apply List.map_congr_left
+  intro k hk
+  simp only [Function.comp, ndindex]
+  rw [offset_indices hs (by rw [hp]; simpa using hk)]
+
+theorem map_infer_ofNat (t : List Nat) (q : Nat) :
+    t.map ((fun d : Int => if d = -1 then q else d.toNat) ∘ Int.ofNat) = t := by
+  induction t with
+  | nil => rfl
+  | cons a t ih =>
+    have : ¬ ((a : Int) = -1) := by omega
+    simp only [List.map_cons, ih, Function.comp]
+    simp [this]
+
+theorem prod_filter_ne_one (s : List Nat) : prod (s.filter (fun e => e != 1)) = prod s := by
+  induction s with
+  | nil => rfl
+  | cons a t ih =>
+    by_cases h : a = 1
+    · subst h; simp [prod, ih]
+    · simp [h, prod, ih]
+
+theorem prod_replicate_one (k : Nat) : prod (List.replicate k 1) = 1 := by
+  induction k with
+  | zero => rfl
+  | succ k ih => simp [List.replicate_succ, prod, ih]
+
+/-- a view that is `reshapeView` to a non-empty Nat shape with the same count: accepted, that shape, C order kept -/
+theorem reshapeView_nat {α : Type} (a : Arr α) (fill : α) (t : Shape) (hne : t ≠ []) (hp : prod t = prod a.shape)
+    (ha : Pos a.shape) :
+    ∃ v, reshapeView a.shape (t.map Int.ofNat) = some v ∧ v.src = a.shape ∧ v.dst = t ∧
+      (v.apply a fill).flat = a.flat ∧ v.InBounds := by
+  have hs : shapeReshape a.shape (t.map Int.ofNat) = some t := by
+    have hne' : t.map Int.ofNat ≠ [] := by simpa using hne
+    simp only [shapeReshape, countNegativeReshape_eq _ hne', cntNeg_ofNat, prodNonNeg_ofNat, hp]
+    simp [map_infer_ofNat]
+  refine ⟨_, by simp only [reshapeView, hs]; rfl, rfl, rfl, ?_, ?_⟩
+  · have hpos : Pos t := pos_of_prod_pos t (by rw [hp]; exact prod_pos ha)
+    simp only [Arr.flat, IxView.apply]
+    exact reshape_map_flat a t hpos ha hp
+  · intro d _ i hi
+    simp only [Option.some.injEq] at hi
+    subst hi
+    exact indices_inShape ha _
+
 end NmVerif
